@@ -476,6 +476,88 @@ def C07(c):
              "model step from the serialized state at each of those positions")
 
 
+# ---------------------------------------------------------------------------------------------
+# indicators: C05 values, C06 signals, C12 ranges — one transcript, three independent comparisons
+# ---------------------------------------------------------------------------------------------
+MODELLED = ["MACD", "BollingerBands", "Aroon", "RelativeStrengthIndex", "StochasticOscillator", "DonchianChannel",
+            "PriceChannelStrategy", "KeltnerChannel", "Envelopes", "IchimokuCloud", "ChaikinMoneyFlow", "MoneyFlowIndex",
+            "ChandeMomentumOscillator", "TrueStrengthIndex", "SMIErgodicIndicator", "ParabolicSAR"]
+
+IND_CLASSES = {
+    "C05": ("ind-init", "ind-value", "ind-panic", "ind-shape"),
+    "C06": ("ind-signal",),
+    "C12": ("ind-range", "ind-finite", "range"),
+}
+
+IND_TRUST = [
+    "hand-written indicator models (lean/YataModel/Indicators.lean, 16 of the 36 indicators: " + ", ".join(MODELLED) + "); the other "
+    "indicators are outside this property's theorems and comparisons and are covered by C08-C11/C13 only",
+    "tie: every `ind` transcript (every indicator x default + random valid configurations through the string setters, all 15 MA kinds, "
+    "all Source kinds x candle classes walk/flat/gaps/zero-volume/volatile-flat-volatile) is replayed through the executable model "
+    "by the compiled driver; init result kinds must agree, then every step is compared",
+]
+
+
+def ind_check(c, rule, trusted_extra):
+    run_extract(c)
+    c.proofs()
+    exe = need_harness(c)
+    if exe:
+        r = run_suite(exe, "ind", c.seed, c.tier, f"{c.prop}-ind")
+        classes = IND_CLASSES[c.prop]
+        c.add_suite(r, sig_method, only=lambda mm: mm.get("class") in classes)
+        summ = r.get("summary", {})
+        c.coverage["values_compared"] = summ.get("spec_evals", 0)
+        c.coverage["signals_compared"] = summ.get("lsteps", 0)
+        c.coverage["exempt_steps"] = summ.get("exempt", 0)
+        c.coverage["modelled_indicators"] = MODELLED
+        if c.prop == "C12":
+            r2 = run_suite(exe, "methods", c.seed, c.tier, "C12-methods", ["--methods", "stdev,mad,medad,linvol,tr"])
+            c.add_suite(r2, sig_method, only=lambda mm: mm.get("class") == "range")
+            r3 = run_suite(exe, "candle", c.seed, c.tier, "C12-candle")
+            c.add_suite(r3, sig_method, only=lambda mm: "range:" in mm.get("raw", ""))
+    return c.finish(level="proof", trusted=TRUSTED_COMMON + NUMERIC_TRUST[:1] + IND_TRUST + trusted_extra, rule=rule)
+
+
+def C05(c):
+    return ind_check(c,
+        rule="per indicator: default configuration + 5 (thorough 23) random valid configurations x 260 (thorough 600) candles; every "
+             "returned value compared with the exact model's value under the allowance a = 1024*eps*(t+n)*kappa*scale; quotients "
+             "through an interval enclosure (exempt when the denominator interval contains 0, except on all-flat histories where "
+             "the guard value is required exactly); Bollinger bands on the square; later stages (signal lines, smoothings) are fed "
+             "the implementation's own earlier value so that each stage is compared under its own allowance",
+        trusted_extra=[
+            "the Parabolic SAR comparison of a case ends (counted exempt) at the first step where the flip decision is within "
+            "64 ulp of the SAR; sqrt is never evaluated (variance compared with the squared distance band-centre)",
+            "cases configured with the Vidya average are reported under the signature ind-value:vidya:<Indicator> (its running "
+            "sums amplify rounding residue: known finding shared with C03/C15)",
+        ])
+
+
+def C06(c):
+    return ind_check(c,
+        rule="every signal slot of the modelled indicators at every step: the documented rule (model `sigs`) is applied to the values "
+             "the implementation itself returned (exact rationals of those floats); thresholds the code forms arithmetically "
+             "(1 - zone) and candle sources (tp, hl2, ...) are rounded as the code rounds them, so crossing / band / zone decisions "
+             "are compared exactly; proportional strengths (Bollinger, Aroon trend) must equal the quantiser level of the exact "
+             "argument, exempt when the argument is within 8 ulp of a level boundary; after a non-finite value the detector states "
+             "resynchronise for one step (counted exempt)",
+        trusted_extra=["rne53 (round-to-nearest-even of a rational to binary64, normal range) in the driver, validated on the run itself: "
+                       "a wrong rounding shows as a signal disagreement"])
+
+
+def C12(c):
+    return ind_check(c,
+        rule="strict range / ordering test on the implementation's own values at every step, no exemption for undecidable guards: "
+             "Aroon, RSI, MFI, Stochastic (non-overshooting MA kinds) in [0,1]; CMO, CMF, TSI, SMI in [-1,1]; Bollinger upper>=middle>=lower, "
+             "Keltner/Envelopes/PriceChannel upper>=lower, Donchian contains the current high/low, SAR on the far side of the candle; "
+             "slack C*eps*k*(hi-lo); a non-finite value in a bounded slot is a violation unless the exact denominator is zero and the code "
+             "has no guard for it (CMF with zero total volume: formula undefined); dispersion methods (StDev, MeanAbsDev, MedianAbsDev, "
+             "LinearVolatility, TR) must be >= 0 and CLV in [-1,1] on every valid candle",
+        trusted_extra=["a range violation is tagged `-residue` when the exact denominator/guard of that slot is zero up to the allowance; "
+                       "only those (rounding residue behind an exact == 0 guard) are listed as known findings"])
+
+
 def replay(prop, path):
     """re-run a replay file: real code through the harness, then the driver"""
     text = open(path).read()
@@ -513,4 +595,4 @@ def replay(prop, path):
     return 1 if res["mismatches"] or res.get("error") else 0
 
 
-PROPS = {"C01": C01, "C02": C02, "C03": C03, "C04": C04, "C14": C14, "C16": C16, "C18": C18, "C17": C17, "C09": C09, "C08": C08, "C10": C10, "C11": C11, "C13": C13, "C19": C19, "C20": C20, "C15": C15, "C07": C07}
+PROPS = {"C05": C05, "C06": C06, "C12": C12, "C01": C01, "C02": C02, "C03": C03, "C04": C04, "C14": C14, "C16": C16, "C18": C18, "C17": C17, "C09": C09, "C08": C08, "C10": C10, "C11": C11, "C13": C13, "C19": C19, "C20": C20, "C15": C15, "C07": C07}
